@@ -7,3 +7,8 @@ CONSTRAINT EmitConstraint
 CHECK_DEADLOCK FALSE
 INVARIANT WindNeverFabricates
 INVARIANT WindFullFileReadsAll
+INVARIANT CloudNeverFabricates
+INVARIANT CloudFullFileReadsAll
+INVARIANT CloudSizes
+INVARIANT LatNeverFabricates
+INVARIANT LatFullFileReadsAll
